@@ -3,6 +3,7 @@ package checks
 import (
 	"bytes"
 	"fmt"
+	"github.com/cocosip/go-dicom-codecs/jpeg/standard"
 	"image"
 	"image/color"
 	"image/jpeg"
@@ -23,9 +24,9 @@ func init() {
 // dctCase: Codec 0 = baseline, 1 = extended 8-bit, 2 = extended 12-bit.
 type dctCase struct {
 	Codec, W, H, C, Q int
-	Kind            string // content family name or "exh"
-	K               int    // family index / sequence rank
-	Pix             []int  `json:"pix,omitempty"`
+	Kind              string // content family name or "exh"
+	K                 int    // family index / sequence rank
+	Pix               []int  `json:"pix,omitempty"`
 }
 
 var zigzagNat = [64]int{0, 1, 8, 16, 9, 2, 3, 10, 17, 24, 32, 25, 18, 11, 4, 5, 12, 19, 26, 33, 40, 48, 41, 34, 27, 20, 13, 6, 7, 14, 21, 28,
@@ -64,7 +65,7 @@ func skewedACImage(a dctCase) []int {
 	for i := 0; i < fa; i++ {
 		kinds = append(kinds, 16)
 	}
-	l := eng.NewLCG(a.Q + 7*a.Codec)
+	l := eng.NewLCG(a.Q + 7*a.Codec + 131*a.K)
 	for i := len(kinds) - 1; i > 0; i-- {
 		j := int(l.Next()>>8) % (i + 1)
 		kinds[i], kinds[j] = kinds[j], kinds[i]
@@ -84,6 +85,20 @@ func skewedACImage(a dctCase) []int {
 			pos, val = 1, 2.0
 		}
 		nat := zigzagNat[pos]
+		if a.K >= 101 && k >= 12 && k < 16 {
+			// variant: the four rarest symbols sit at the lowest frequencies (smallest quantiser) and carry the largest
+			// magnitude the sample range allows: the longest codes meet the largest number of magnitude bits
+			pos = k - 11
+			nat = zigzagNat[pos]
+			amp := 4 * float64(mid)
+			if nat%8 == 0 || nat/8 == 0 {
+				amp *= math.Sqrt2
+			}
+			val = math.Floor(0.9 * amp / float64(q[nat]))
+			if val < 2 {
+				val = 2
+			}
+		}
 		u, v := nat%8, nat/8
 		f := val * float64(q[nat])
 		cu, cv := 1.0, 1.0
@@ -357,6 +372,9 @@ func dctEnumerate(c *eng.Ctx, sub string, codecs []int, run func(dctCase, *eng.C
 			if nc == 1 {
 				for _, q := range []int{50, 75} {
 					jobs = append(jobs, dctCase{Codec: cd, W: 712, H: 608, C: 1, Q: q, Kind: "skew", K: 100})
+					for k := 101; k <= 104; k++ {
+						jobs = append(jobs, dctCase{Codec: cd, W: 712, H: 608, C: 1, Q: q + 5*(k-100), Kind: "skew", K: k})
+					}
 				}
 			}
 			big := [][2]int{{64, 64}, {100, 37}, {256, 3}}
@@ -418,9 +436,85 @@ func dctEnumerate(c *eng.Ctx, sub string, codecs []int, run func(dctCase, *eng.C
 	c.Subspace("sizes-x-quality", c.Evals()-before, done, "every (w,h) in 1..33^2 x quality {1,25,50,75,90,100}, every quality 1..100 at {1x1,7x9,8x8,16x16,17x33}, x 11 content families; every image of <= 4 samples over {0,mid,MAX}; larger sizes with 3 qualities; 712x608 images whose AC symbol histogram is Fibonacci over 18 symbols (optimised Huffman table at its 16-bit length limit)")
 }
 
+// idctCase: coefficient block with one or two non-zero entries (natural order), unit quantisation table.
+type idctCase struct {
+	K1, A1, K2, A2, DC int
+}
+
+func idctRun(a idctCase) *eng.Fail {
+	var coef [64]int32
+	var q [64]int32
+	for i := range q {
+		q[i] = 1
+	}
+	coef[0] = int32(a.DC)
+	coef[a.K1] += int32(a.A1)
+	if a.K2 >= 0 {
+		coef[a.K2] += int32(a.A2)
+	}
+	out := make([]byte, 64)
+	standard.IDCTISlow(coef[:], q, out, 8)
+	for y := 0; y < 8; y++ {
+		for x := 0; x < 8; x++ {
+			f := 0.0
+			for k, cv := range coef {
+				if cv == 0 {
+					continue
+				}
+				u, v := k%8, k/8
+				cu, cw := 1.0, 1.0
+				if u == 0 {
+					cu = 1 / math.Sqrt2
+				}
+				if v == 0 {
+					cw = 1 / math.Sqrt2
+				}
+				f += 0.25 * cu * cw * float64(cv) * math.Cos(float64(2*x+1)*float64(u)*math.Pi/16) * math.Cos(float64(2*y+1)*float64(v)*math.Pi/16)
+			}
+			want := f + 128
+			if want < 0 {
+				want = 0
+			}
+			if want > 255 {
+				want = 255
+			}
+			if d := math.Abs(float64(out[y*8+x]) - want); d > 1.51 {
+				return eng.Failf("idct-differs-from-definition", "coefficients %+v: sample (%d,%d) = %d, the inverse DCT of T.81 A.3.3 gives %.2f", a, x, y, out[y*8+x], want)
+			}
+		}
+	}
+	return nil
+}
+
+var idctFn11 = eng.Reg("C11.idct", idctRun)
+var idctFn15 = eng.Reg("C15.idct", idctRun)
+
+// idctSpace: every single coefficient position x amplitude set, and every pair of positions x 3 amplitude pairs, with
+// and without a DC offset: the baseline decoder's inverse transform against the defining formula (tolerance 1.5 levels).
+func idctSpace(c *eng.Ctx, sub string, fn func(idctCase) *eng.Fail) {
+	before := c.Evals()
+	c.Par(64, func(k1 int) {
+		for _, dc := range []int{0, 400, -600} {
+			for _, a := range []int{1, -1, 3, -20, 100, -500, 1020} {
+				if k1 == 0 && dc != 0 {
+					continue
+				}
+				eng.Check(c, sub, idctCase{K1: k1, A1: a, K2: -1, DC: dc}, fn)
+			}
+			for k2 := k1 + 1; k2 < 64; k2++ {
+				for _, ap := range [][2]int{{100, 100}, {100, -100}, {300, -40}} {
+					eng.Check(c, sub, idctCase{K1: k1, A1: ap[0], K2: k2, A2: ap[1], DC: dc}, fn)
+				}
+			}
+		}
+	})
+	c.Subspace("idct-basis", c.Evals()-before, true, "standard.IDCTISlow with a unit table: every single coefficient position x 7 amplitudes and every pair of positions x 3 amplitude pairs, x DC offset {0,400,-600}, each of the 64 samples against the inverse DCT formula of T.81 A.3.3 within 1.5 levels")
+}
+
 func c11(c *eng.Ctx) {
 	c.Rule("E1: full product sizes 1..33 x 1..33 (every partial 8x8 block shape) x quality set x components x {baseline, extended-8, extended-12} x 11 content families (zeros, MAX, Nyquist checker, stripes, corner impulses, ramp, block-edge step, 3 noise) plus all tiny images over {0,mid,MAX}; oracle bound computed from the DQT parsed out of each emitted stream. distinct = distinct streams; non-trivial = reconstruction differs from source somewhere (loss actually occurred)")
 	c.Assume("bound formula and allowances are the property's own: 1/8 sum C(u)C(v)Q[u,v] per component, through the JFIF colour matrix rows for RGB, +2 grey / +5 RGB")
+	idctSpace(c, "C11.idct", idctFn11)
 	dctEnumerate(c, "C11.loss-bound", []int{0, 1, 2}, dctLoss, dctLossFn)
 	c.Sample(map[string]any{"Codec": "baseline", "W": 17, "H": 33, "C": 3, "Q": 1, "content": "Nyquist checker"})
 }
@@ -428,16 +522,16 @@ func c11(c *eng.Ctx) {
 // ---- C15 decoder side ----
 
 type dctRefCase struct {
-	Src      int // 0 reference encoder, 1 image/jpeg encoder
-	W, H, C  int
-	Q        int
-	HY, VY   int
-	Optimal  bool
-	DRI      int // 0 none, 1 every MCU, 2 = MCUs per row
-	App      int
-	IDs      int // 0: 1,2,3 ; 1: 0,1,2
-	K        int
-	Dec      int // 0 baseline.Decode, 1 extended.Decode
+	Src     int // 0 reference encoder, 1 image/jpeg encoder
+	W, H, C int
+	Q       int
+	HY, VY  int
+	Optimal bool
+	DRI     int // 0 none, 1 every MCU, 2 = MCUs per row
+	App     int
+	IDs     int // 0: 1,2,3 ; 1: 0,1,2
+	K       int
+	Dec     int // 0 baseline.Decode, 1 extended.Decode
 }
 
 func dctRefStream(a dctRefCase) ([]byte, error) {
@@ -534,6 +628,7 @@ var dctInteropDecFn = eng.Reg("C15.independent-stream", func(a dctRefCase) *eng.
 func c15(c *eng.Ctx) {
 	c.Rule("E1: encoder side: the C11 8-bit space, each stream decoded by image/jpeg and by the library; decoder side: streams from an independent baseline encoder over sizes 1..33^2 x sampling {4:4:4,4:2:2,4:2:0,4:4:0, grey} x {standard, optimised Huffman} x {no DRI, DRI 1, DRI=MCUs per row} x {none, JFIF, Adobe} x component ids x contents, and from image/jpeg.Encode, decoded by baseline.Decode and extended.Decode and compared with image/jpeg. distinct = distinct streams")
 	c.Assume("image/jpeg is the independent decoder named by the property; tolerance 2 grey / 6 RGB is the property's")
+	idctSpace(c, "C15.idct", idctFn15)
 	dctEnumerate(c, "C15.library-stream", []int{0, 1}, dctInteropEnc, dctInteropEncFn)
 	var jobs []dctRefCase
 	sizes := dctSizes(c)
